@@ -5,11 +5,12 @@
    right-hand sides and the real mass matrix of every generated instance (certificate tie);
    C18_certificate_sound connects that boolean to the theorems.
 
-   NOT built: the planned executable 1-D RT0 model with a full exactness theorem
-   (C18_1d_exact); 1-D grids go through the same certificates as 2-D/3-D. *)
+   1-D: an executable model of RT0 on an interval partition (PP.Model.C18, part D) with the
+   exactness theorem C18_1d_exact; the model is compared with the real pp.RT0 system on every
+   generated x-aligned 1-D grid (agree_1d). *)
 From Coq Require Import List ZArith QArith Qabs Bool Arith Lia.
 Import ListNotations.
-From PP Require Import Lib.RowLin Model.C18 Proofs.C18.
+From PP Require Import Lib.RowLin Lib.SumF Lib.RowInv Model.C18 Proofs.C18.
 Local Open Scope Q_scope.
 
 (* Positive definiteness from the exact elimination certificate: if spd_chk n M accepts
@@ -23,17 +24,57 @@ Theorem C18_spd_certificate :
 Proof. exact spd_certificate. Qed.
 Print Assumptions C18_spd_certificate.
 
-(* Gram matrices: if W is positive definite and B is injective then the quadratic form of
-   B^T W B, written (B x)^T W (B x), is positive on non-zero x.
-   PARTIAL: the identity x^T (B^T W B) x = (B x)^T W (B x) for list matrices is not proved and
-   the factorisation of the real local mass matrices as B^T W B is not checked by the tie. *)
-Theorem C18_gram_spd_partial :
-  forall (W B : mat) (x : list Q),
-    (forall y, length y = length B -> ~ allzero y -> 0 < quad W y) ->
+(* The quadratic form of a square matrix is the quadratic form of its symmetric part
+   (M + M^T)/2, so the certificate run on the exactly computed symmetric part is about the
+   real (only nearly symmetric, floating point) mass matrix M itself. *)
+Theorem C18_quad_sympart :
+  forall (n : nat) (M : mat) (x : list Q),
+    wf n M -> length x = n -> quad (sympart n M) x == quad M x.
+Proof. exact quad_sympart. Qed.
+Print Assumptions C18_quad_sympart.
+
+Theorem C18_mass_spd :
+  forall (tol : Q) (n : nat) (M : mat) (x : list Q),
+    mass_ok tol n M = true -> length x = n -> ~ allzero x -> 0 < quad M x.
+Proof. exact mass_spd. Qed.
+Print Assumptions C18_mass_spd.
+
+(* Gram matrices.  The identity x^T (B^T W B) x = (B x)^T W (B x) for list matrices
+   (B : m x n, W : m x m, gram_mat n m W B the matrix B^T W B computed entry by entry) ... *)
+Theorem C18_gram_identity :
+  forall (n m : nat) (W B : mat) (x : list Q),
+    wf m W -> wfr m n B -> length x = n ->
+    quad (gram_mat n m W B) x == quad W (mulmv B x).
+Proof. exact gram_identity. Qed.
+Print Assumptions C18_gram_identity.
+
+(* ... hence B^T W B is positive definite whenever W is and B is injective. *)
+Theorem C18_gram_spd :
+  forall (n m : nat) (W B : mat) (x : list Q),
+    wf m W -> wfr m n B ->
+    (forall y, length y = m -> ~ allzero y -> 0 < quad W y) ->
     (allzero (mulmv B x) -> allzero x) ->
-    ~ allzero x -> 0 < gram_quad W B x.
-Proof. exact gram_spd. Qed.
-Print Assumptions C18_gram_spd_partial.
+    length x = n -> ~ allzero x -> 0 < quad (gram_mat n m W B) x.
+Proof. exact gram_spd_full. Qed.
+Print Assumptions C18_gram_spd.
+
+(* The factorisation of the REAL local RT0 mass matrices, captured from RT0.massHdiv per cell
+   (A_loc = C^T N^T HB inv_K_exp N C, so B = N C, W = HB inv_K_exp): if check accepts, then for
+   every captured local matrix L the factors have the right shapes, W is positive definite,
+   B^T B is positive definite (B injective), the exact Gram matrix B^T W B is therefore
+   positive definite, and (local_ok) the float matrix A_loc agrees with it entrywise within the
+   tolerance. *)
+Theorem C18_local_factorisation_sound :
+  forall (tol : Q) (I : inst) (L : local) (x : list Q),
+    check tol I = true -> In L (i_locals I) -> length x = l_n L -> ~ allzero x ->
+    0 < quad (gram_mat (l_n L) (l_m L) (l_W L) (l_B L)) x
+    /\ mat_close tol (l_n L) (l_A L) (gram_mat (l_n L) (l_m L) (l_W L) (l_B L)) = true.
+Proof.
+  intros tol I L x H HL Hx Hnz. pose proof (check_locals tol I L H HL) as HLok. split.
+  - exact (local_sound tol L x HLok Hx Hnz).
+  - unfold local_ok in HLok. apply andb_prop in HLok. destruct HLok as [_ HLok]. exact HLok.
+Qed.
+Print Assumptions C18_local_factorisation_sound.
 
 (* Exactness from consistency, flux equation of one face f with incident cells fcs = (c, s_cf):
    if the mass matrix applied to the interpolant of the exact (constant) flux gives
@@ -92,18 +133,57 @@ Theorem C18_unique_solution :
 Proof. exact c18_unique_solution. Qed.
 Print Assumptions C18_unique_solution.
 
-(* Soundness of the checker the tie evaluates: if check tol I = true then (1) the exactly
-   computed symmetric part of the mass matrix is positive definite (all non-zero x), and (2)
+(* Soundness of the checker the tie evaluates: if check tol I = true then (1) the real mass
+   matrix is positive definite (x^T M x > 0 for all non-zero x), and (2)
    for EVERY linear pressure the residual of its exact candidate in every row of the real
    assembled system is at most  sum_m |theta_m| * tol * (1 + sum|terms of row . basis_m|). *)
 Theorem C18_certificate_sound :
   forall (tol : Q) (I : inst),
     check tol I = true ->
-    (forall x, length x = i_nf I -> ~ allzero x -> 0 < quad (sympart (i_nf I) (i_mass I)) x)
+    (forall x, length x = i_nf I -> ~ allzero x -> 0 < quad (i_mass I) x)
     /\ (forall r theta, In r (i_rows I) -> length theta = 4%nat ->
           Qabs (rdot r (xstate I theta)) <= res_bound tol I r theta).
 Proof. exact certificate_sound. Qed.
 Print Assumptions C18_certificate_sound.
+
+(* 1-D, full exactness on the executable model of RT0 on an interval partition: for EVERY
+   node list xs with at least one cell, every k <> 0 and every linear pressure p = a x + c0, the
+   candidate (flux -k a on every face, p at every cell mid-point) satisfies every one of the
+   2n+1 equations of the assembled system with Dirichlet data p(x_0), p(x_n) ... *)
+Theorem C18_1d_exact :
+  forall (xs : list Q) (k a c0 : Q) (i : nat),
+    ~ k == 0 -> (1 <= ncell xs)%nat -> (i < S (ncell xs) + ncell xs)%nat ->
+    rdot (rt0_row xs k i) (rt0_cand xs k a c0)
+    == rt0_rhs xs (a * xn xs 0 + c0) (a * xn xs (ncell xs) + c0) i.
+Proof. exact rt0_1d_exact. Qed.
+Print Assumptions C18_1d_exact.
+
+(* ... and it is the ONLY solution (x_n <> x_0, e.g. increasing nodes): any vector satisfying
+   the 2n+1 equations has flux -k a on every face and the mid-point pressure in every cell.
+   Together: on every interval partition the 1-D RT0 model returns the exact constant flux and
+   the exact cell-centre pressures of every linear pressure. *)
+Theorem C18_1d_unique :
+  forall (xs : list Q) (k a c0 : Q) (x : vec),
+    ~ k == 0 -> (1 <= ncell xs)%nat -> ~ xn xs (ncell xs) == xn xs 0 ->
+    (forall i, (i < S (ncell xs) + ncell xs)%nat ->
+       rdot (rt0_row xs k i) x == rt0_rhs xs (a * xn xs 0 + c0) (a * xn xs (ncell xs) + c0) i) ->
+    forall j, (j < S (ncell xs) + ncell xs)%nat -> x j == rt0_cand xs k a c0 j.
+Proof. exact rt0_1d_unique. Qed.
+Print Assumptions C18_1d_unique.
+
+(* Non-singularity per instance: a left-inverse certificate N * A = d * I (d <> 0), verified
+   exactly by inv_ok on the real assembled matrix, discharges the trivial-kernel hypothesis of
+   C18_unique_solution for that instance. *)
+Theorem C18_nonsingular_certificate :
+  forall (tol : Q) (I : inst) (N : mat) (d : Q),
+    check tol I = true -> i_inv I = Some (N, d) ->
+    forall v : vec, (forall j, (i_nf I + i_nc I <= j)%nat -> v j == 0) ->
+                    (forall r, In r (i_rows I) -> rdot r v == 0) ->
+                    forall j, (j < i_nf I + i_nc I)%nat -> v j == 0.
+Proof.
+  intros tol I N d H E. exact (nonsingular_certificate I N d (check_inv tol I N d H E)).
+Qed.
+Print Assumptions C18_nonsingular_certificate.
 
 (* Non-vacuity: the checker accepts a positive definite matrix, rejects an indefinite and a
    non-symmetric one, and the real RT0 system of a 2-cell 1-D grid passes every certificate
@@ -112,18 +192,46 @@ Example C18_nonvacuous :
   spd_chk 2 [[2; 1]; [1; 2]] = true /\ 0 < quad [[2; 1]; [1; 2]] [1; -(1)] /\
   spd_chk 2 [[1; 2]; [2; 1]] = false /\ spd_chk 2 [[2; 1]; [0; 2]] = false /\
   check (1 # 1000000000) ex_inst = true /\
-  0 < quad (sympart (i_nf ex_inst) (i_mass ex_inst)) [1; -(1); 2] /\
-  length (i_rows ex_inst) = 5%nat.
+  0 < quad (i_mass ex_inst) [1; -(1); 2] /\
+  length (i_rows ex_inst) = 5%nat /\ i_xs ex_inst = [0; 1; 3] /\ i_inv ex_inst <> None.
 Proof.
   split; [vm_compute; reflexivity|].
   split; [apply (spd_certificate 2); [vm_compute; reflexivity | reflexivity |
            intros H; inversion H as [|? ? H1 H2]; subst; vm_compute in H1; discriminate]|].
   split; [vm_compute; reflexivity|]. split; [vm_compute; reflexivity|].
   split; [exact ex_inst_check|].
-  split; [|vm_compute; reflexivity].
+  split; [|split; [vm_compute; reflexivity|split; [vm_compute; reflexivity|vm_compute; discriminate]]].
   apply (proj1 (certificate_sound _ _ ex_inst_check)); [reflexivity|].
   intros H; inversion H as [|? ? H1 H2]; subst; vm_compute in H1; discriminate.
 Qed.
+
+(* Non-vacuity of the 1-D theorem: nodes 0, 1, 3, k = 2, p = x + 1: the five equations, and
+   what the candidate is. *)
+Example C18_nonvacuous_1d :
+  (forall i, (i < 5)%nat ->
+     rdot (rt0_row [0; 1; 3] 2 i) (rt0_cand [0; 1; 3] 2 1 1) == rt0_rhs [0; 1; 3] 1 4 i) /\
+  rt0_cand [0; 1; 3] 2 1 1 0%nat == -(2) /\ rt0_cand [0; 1; 3] 2 1 1 4%nat == 3 /\
+  rt0_rhs [0; 1; 3] 1 4 0 == 1 /\ rt0_rhs [0; 1; 3] 1 4 2 == -(4) /\
+  ~ xn [0; 1; 3] (ncell [0; 1; 3]) == xn [0; 1; 3] 0 /\ ncell [0; 1; 3] = 2%nat.
+Proof.
+  split; [|repeat split; try (vm_compute; reflexivity); intros E; vm_compute in E; discriminate].
+  intros i Hi.
+  rewrite (rt0_1d_exact [0; 1; 3] 2 1 1 i); [|intros E; vm_compute in E; discriminate|cbn; lia|cbn; lia].
+  unfold rt0_rhs. destruct (i =? 0)%nat; [vm_compute; reflexivity|].
+  destruct (Nat.eqb i (ncell [0; 1; 3])); vm_compute; reflexivity.
+Qed.
+
+(* Non-vacuity of the Gram theorems: W = [[2,1],[1,2]], B = [[1,0],[1,1],...] (3 x 2 needs a 3 x 3 W):
+   here B : 2 x 2 injective; B^T W B = [[6,3],[3,2]]; and the concrete instance carries two
+   captured local matrices (1-D cells: n = 2 faces, m = 2). *)
+Example C18_nonvacuous_gram :
+  let W := [[2; 1]; [1; 2]] in let B := [[1; 0]; [1; 1]] in
+  gram_mat 2 2 W B = [[6; 3]; [3; 2]] /\
+  quad (gram_mat 2 2 W B) [1; -(1)] == quad W (mulmv B [1; -(1)]) /\
+  spd_chk 2 (gram_mat 2 2 (idmat 2) B) = true /\
+  length (i_locals ex_inst) = 2%nat /\
+  forallb (local_ok (1 # 1000000000)) (i_locals ex_inst) = true.
+Proof. repeat split; vm_compute; reflexivity. Qed.
 
 (* Non-vacuity of the flux-equation theorem: an interior face between cells 0 and 1 with
    P(x_0) = 1, P(x_1) = 4, P(x_f) = 2 (rhs 0), and a boundary face (rhs = -s P(x_f)). *)
